@@ -29,6 +29,7 @@ package main
 import (
 	"fmt"
 	"go/ast"
+	"go/token"
 	"go/types"
 	"os"
 	"reflect"
@@ -307,6 +308,8 @@ func checkC06(c *Ctx) {
 
 	r.Rule("R06j", "codec emitters are called on every successful path of generateFile: a message described by the annotated schema gets its codec also in a file without services (shared with C05/R05j)", 2)
 	codecEmittersUnconditional(c, "R06j")
+
+	c06NilSliceEncoded(c)
 
 	conv := c.P.Func(pkgOpenAPI, "Generator.convertField")
 	if conv == nil {
@@ -824,3 +827,80 @@ func c06Responses(c *Ctx) {
 }
 
 func init() { props["C06"] = checkC06 }
+
+// c06NilSliceEncoded: R06k — in an emitted MarshalJSON a slice that is JSON-encoded (json.Marshal(v)) is created
+// non-nil: `var v []T` encodes an empty list as null, while the published schema of a repeated field / unwrap
+// list is `type: array` (protojson writes [] as well).
+func c06NilSliceEncoded(c *Ctx) {
+	r := c.R
+	r.Rule("R06k", "emitted encoders never JSON-encode a nil-declared slice (an empty list must be [], not null)", 1)
+	bad := map[string]string{}
+	nEnc, nMake := 0, 0
+	for _, ri := range c.goUnitRoots() {
+		ex := c.Explore(ri.Fn, 1, 6000)
+		if !unitDeclaresCodec(ex) {
+			continue
+		}
+		for _, v := range ex.Variants {
+			for _, u := range v.Units {
+				fset, f, err := ParseUnit(u)
+				if err != nil {
+					continue
+				}
+				for _, d := range f.Decls {
+					fd, ok := d.(*ast.FuncDecl)
+					if !ok || fd.Body == nil || fd.Name.Name != "MarshalJSON" {
+						continue
+					}
+					nEnc++
+					nilDecl := map[string]token.Pos{}
+					ast.Inspect(fd.Body, func(n ast.Node) bool {
+						switch x := n.(type) {
+						case *ast.DeclStmt:
+							if gd, ok := x.Decl.(*ast.GenDecl); ok && gd.Tok == token.VAR {
+								for _, sp := range gd.Specs {
+									vs := sp.(*ast.ValueSpec)
+									if _, isSlice := vs.Type.(*ast.ArrayType); isSlice && len(vs.Values) == 0 {
+										for _, nm := range vs.Names {
+											nilDecl[nm.Name] = nm.Pos()
+										}
+									}
+								}
+							}
+						case *ast.AssignStmt:
+							if x.Tok == token.DEFINE && len(x.Rhs) == 1 {
+								if call, ok := x.Rhs[0].(*ast.CallExpr); ok {
+									if id, ok := call.Fun.(*ast.Ident); ok && id.Name == "make" {
+										nMake++
+									}
+								}
+							}
+						case *ast.CallExpr:
+							if types.ExprString(x.Fun) == "json.Marshal" && len(x.Args) == 1 {
+								if id, ok := x.Args[0].(*ast.Ident); ok {
+									if p, isNil := nilDecl[id.Name]; isNil {
+										line := fset.Position(p).Line
+										pos, em := "", "?"
+										if line >= 1 && line <= len(u.Lines) {
+											pos = c.P.Pos(u.Lines[line-1].Pos)
+											if u.Lines[line-1].Fn != nil {
+												em = u.Lines[line-1].Fn.Name()
+											}
+										}
+										bad[pkgShort(ri.Pkg)+" *"+ri.Suffix+": a slice declared with `var` (nil) is JSON-encoded"] = pos
+										_ = em
+									}
+								}
+							}
+						}
+						return true
+					})
+				}
+			}
+		}
+	}
+	for _, k := range sortedKeys(bad) {
+		r.Bad("R06k", k, bad[k], "an empty list is encoded as null: the schema published for the field is `type: array` (and protojson writes [] for the same field), so the response does not validate against the document", nil)
+	}
+	r.OKd("R06k", "slices encoded by emitted MarshalJSON functions are created with make", "", map[string]any{"encoders": nEnc, "make_sites": nMake, "nil_declared_and_encoded": len(bad)})
+}
